@@ -455,3 +455,102 @@ def c16_cases():
             out.append(Case(f'{name}/{on}', src, entry, sizes[:1], f, 'attach-detach', must_change=False, trace_pragmas=True))
             out.append(Case(f'{name}/{on}/reparsed', src, entry, sizes[:1], reparsed(f), 'attach-detach', must_change=False, trace_pragmas=True))
     return out
+
+
+# ---------------------------------------------------------------- C14 (behavioural projection)
+
+def _all_routines(p):
+    return p.routines + [r for m in p.modules for r in m.subroutines]
+
+
+def tf_identity(cls_name, **kw):
+    """an empty mapping (or a node mapped to an equal copy of itself) must give back a tree with the same meaning"""
+    def f(p):
+        from loki.ir import Transformer, NestedTransformer  # pylint: disable=import-outside-toplevel
+        cls = {'Transformer': Transformer, 'NestedTransformer': NestedTransformer}[cls_name]
+        for r in _all_routines(p):
+            new = cls({}, **kw).visit(r.body)
+            if not kw.get('inplace'):
+                r.body = new
+        p.text = None
+        return p
+    return f
+
+
+def tf_self_copies(p):
+    """every assignment is mapped to a freshly built equal node"""
+    from loki.ir import Transformer  # pylint: disable=import-outside-toplevel
+    for r in _all_routines(p):
+        mapper = {a: a.clone() for a in FindNodes(ir.Assignment).visit(r.body)}
+        r.body = Transformer(mapper).visit(r.body)
+    p.text = None
+    return p
+
+
+def tf_inject_tuples(p):
+    """one-to-many mappings: every k-th leaf statement n -> (comment, n) and n -> (n, comment) (tuples containing the node itself)"""
+    from loki.ir import Transformer  # pylint: disable=import-outside-toplevel
+    for r in _all_routines(p):
+        nodes = FindNodes((ir.Assignment, ir.CallStatement)).visit(r.body)
+        mapper = {}
+        for k, n in enumerate(nodes):
+            c = ir.Comment(text=f'! injected {k}')
+            if k % 3 == 0:
+                mapper[n] = (c, n)
+            elif k % 3 == 1:
+                mapper[n] = (n, c)
+        r.body = Transformer(mapper).visit(r.body)
+    p.text = None
+    return p
+
+
+def tf_remove_comments(p):
+    """mapping to None removes exactly the mapped nodes: dropping every comment / pragma-free comment block keeps the meaning"""
+    from loki.ir import Transformer  # pylint: disable=import-outside-toplevel
+    for r in _all_routines(p):
+        mapper = {c: None for c in FindNodes((ir.Comment, ir.CommentBlock)).visit(r.body)}
+        r.body = Transformer(mapper).visit(r.body)
+    p.text = None
+    return p
+
+
+def tf_nested_replace(p):
+    """NestedTransformer: a loop / conditional and a statement inside it are both mapped (to equal copies): the inner
+    replacement must survive the outer one"""
+    from loki.ir import NestedTransformer  # pylint: disable=import-outside-toplevel
+    for r in _all_routines(p):
+        mapper = {}
+        for outer in FindNodes((ir.Loop, ir.Conditional)).visit(r.body):
+            mapper[outer] = outer.clone()
+        for a in FindNodes(ir.Assignment).visit(r.body):
+            mapper[a] = a.clone()
+        r.body = NestedTransformer(mapper).visit(r.body)
+    p.text = None
+    return p
+
+
+def tf_original_untouched(p):
+    """without in-place mode the tree that was passed in is left unchanged (entry = the ORIGINAL after a destructive mapping
+    was applied to produce a second tree)"""
+    from loki.ir import Transformer  # pylint: disable=import-outside-toplevel
+    for r in _all_routines(p):
+        mapper = {a: None for a in FindNodes(ir.Assignment).visit(r.body)}
+        _ = Transformer(mapper).visit(r.body)       # result dropped on purpose
+    p.text = None
+    return p
+
+
+def c14_cases():
+    out = []
+    ops = [('identity', tf_identity('Transformer')), ('identity-nested', tf_identity('NestedTransformer')),
+           ('identity-rebuild-scopes', tf_identity('Transformer', rebuild_scopes=True)),
+           ('identity-inplace', tf_identity('Transformer', inplace=True)),
+           ('self-copies', tf_self_copies), ('inject-tuples', tf_inject_tuples), ('remove-comments', tf_remove_comments),
+           ('nested-replace', tf_nested_replace), ('original-untouched', tf_original_untouched)]
+    for name, src, entry, sizes in sources(pragmas=True):
+        for on, f in ops:
+            if on == 'original-untouched' and 'associate' in src.lower():
+                on = 'original-untouched-with-scoped-node'      # ASSOCIATE blocks are ScopedNodes: updated in place by design
+            out.append(Case(f'{name}/{on}', src, entry, sizes[:1], f, 'transformer', must_change=False,
+                            trace_pragmas=name.startswith('prag-'), raise_is_violation=CONS_RAISES))
+    return out
